@@ -42,6 +42,31 @@ Example rejected_assignment_nonvacuous :     (* a#m.n  then  `#p #q #r >`  (reje
                                    (s "S", s " "); (s "CHAR", s ">")]]) = Some (1, 1, 1)%nat.
 Proof. vm_compute. reflexivity. Qed.
 
+(* @page selectors: every selector of the page grammar (optional name, optional :first/:left/:right, whitespace and
+   comments where allowed), in both error modes, is accepted with (named page, :first, :left or :right) *)
+Theorem page_specificity :
+  forall raising p, ok_page p = true ->
+    exists seq, run_page raising (render_page p) = PAccepted (named p) (first_page p) (left_or_right p) seq.
+Proof. exact page_specificity_lemma. Qed.
+Print Assumptions page_specificity.
+(* one CSSPageRule object under selectorText / cssText assignments: after a committed assignment of p and any
+   number of assignments that are not committed, the rule reports p's specificity *)
+Theorem page_rejected_assignment_keeps_specificity :
+  forall raising h0 before p a rej,
+    ok_page p = true -> good_assign raising p a ->
+    Forall (fun a => forall h', page_assign raising h' a = Some h') rej ->
+    forall h1, page_assigns raising h0 before = Some h1 ->
+    exists seq, page_assigns raising h0 (before ++ a :: rej) = Some (mkPH (named p, first_page p, left_or_right p) seq).
+Proof. exact page_held_specificity_lemma. Qed.
+Print Assumptions page_rejected_assignment_keeps_specificity.
+Example page_nonvacuous :      (* ":left", then cssText "@page toc:first { margin: 1cm" (block rejected) *)
+  option_map ph_spec (page_assigns true pheld0
+     [ASel [ch ":"; mkS TIDENT (s "left")];
+      ACss true [mkS TS (s " "); mkS TIDENT (s "toc"); ch ":"; mkS TIDENT (s "first"); mkS TS (s " ")] BReject])
+  = Some (0, 0, 1)%nat
+  /\ forall h', page_assign true h' (ACss true [mkS TIDENT (s "toc"); ch ":"; mkS TIDENT (s "first")] BReject) = Some h'.
+Proof. split; [vm_compute; reflexivity|intros h'; reflexivity]. Qed.
+
 (* non-vacuity:  ` p|a#i.c[q|x ~= "v"]:hover:not( :lang(en) ) /**/ > *::first-line `  is Declared, and evaluates *)
 Definition ex_ns : ns_map := [(s "p", s "u:p"); (s "q", s "u:q")].
 Definition ex_sel : selector :=
